@@ -2,6 +2,7 @@
 from vf import gen, ref, sched
 from vf.core import call, exc_desc
 from vf.lazy import ck, libx, common
+from vf.monitors import algos
 
 PROP = "C11"
 TECHNIQUE = ("schedule control: the library's random draws run through a scripted source; all pivot sequences enumerated depth-first (n<=5 / 7); existential possible-output oracle + step-by-step check against the observed chooser")
@@ -291,6 +292,41 @@ def check_case(case, ctx):
         if bad:
             break
     ctx.count("sequences", nseq)
+    # history: the Dataset object that this KwikSort object has just sorted is mutated in place (or a dataset derived from
+    # it is), then sorted again by the same object under a few pivot sequences: judged against the rankings it holds now
+    if n >= 2 and n <= 20:
+        import random
+        r3 = random.Random(case["seqseed"] + 1)
+        kind, ok = algos.mutate_in_place(dataset, ds, r3)
+        st_now, now = call(libx.raw_dataset, dataset)
+        if ok and st_now == "ok" and len(ref.universe(now)) >= 1:
+            elems2 = ref.universe(now)
+            table2 = ref.cost_table(now, sch, elems2)
+            coherent2 = ref.coherent_ranking(now, sch)
+            ctx.count("histories:" + kind)
+            ctx.count("runs_after_in_place_mutation_by_the_same_object")
+            for _ in range(4):
+                script = [r3.randrange(1 << 30) for _ in range(2 * len(elems2) + 2)]
+                log, (st, cons, pivots) = run(script)
+                sub = {"ds": now, "scheme": sch, "pivot_decisions": [k for _, k in log], "after": kind, "original_ds": ds}
+                if st == "exc":
+                    ctx.violation(f"C11/raises-{type(cons).__name__}", f"KwikSort raised {exc_desc(cons)} after {kind}", sub)
+                    break
+                r = libx.raw_ranking(cons.consensus_rankings[0])
+                if not common.wellformed_raw(r, elems2):
+                    ctx.violation("C11/element-not-placed:after-in-place-mutation", f"after {kind}: the result {r} does not "
+                                  f"hold exactly the elements {elems2} the dataset holds now", sub, observed=r)
+                    break
+                if not possible_output(r, table2):
+                    ctx.violation("C11/result-is-not-a-possible-kwiksort-output:after-in-place-mutation", f"after {kind} on the "
+                                  f"Dataset that the same KwikSort object had sorted: no sequence of pivots explains {r} with the "
+                                  "cheapest placements of the rankings it holds now", sub, observed=r)
+                    break
+                if coherent2 is not None and ref.canon(r) != ref.canon(coherent2):
+                    ctx.violation("C11/coherent-preferences-but-pivot-dependent-result:after-in-place-mutation",
+                                  f"after {kind}: preferences cohere into {coherent2} but the result is {r}", sub, observed=r,
+                                  expected=coherent2)
+                    break
     if exhaustive:
         ctx.count("exhaustive_datasets")
         ctx.count("exhaustive_spaces")
@@ -324,6 +360,9 @@ def reach(counters, tier, info):
                             ("coherent datasets with >= 2 buckets and a tie", "coherent_with_tie_and_2_buckets", 40 * k),
                             ("datasets of identical rankings", "identical_datasets", 30 * k),
                             ("datasets whose result depends on the pivots", "pivot_dependent_datasets", 30 * k),
+                            ("datasets sorted again by the same object after an in-place mutation",
+                             "runs_after_in_place_mutation_by_the_same_object", 300 * k),
+                            ("... where the step is remove_empty_rankings", "histories:remove_empty", 15 * k),
                             ("runs on more than 1000 elements with as many nested pivots as elements",
                              "deep_runs_with_as_many_nested_pivots_as_elements", 2)]:
         v = counters.get(key, 0)
